@@ -85,6 +85,13 @@ class Contract:
     binds_fields: dict = field(default_factory=dict)   # for __init__ contracts: object-typed field -> parameter it aliases
     interrupt_exit: list = field(default_factory=list)  # C14: clauses at an exit reached after an interrupt (may mention cand_locals)
     pylists: bool = False                     # list literals are python-level lists (unrolled iteration)
+    spec: str = ''                            # name of the spec function this (pure, recursive) function computes
+    lift: dict = field(default_factory=dict)          # comprehension liftings of `spec`: {'concat_list':..., 'concat_vals':..., 'map_list':..., 'map_ents':...}
+    lift_pred: dict = field(default_factory=dict)     # requires-predicate name -> {'list': lifted, 'ents': lifted}
+    lift_raises: dict = field(default_factory=dict)   # exception kind -> {'list': definedness predicate over PL, 'ents': ... over PE}
+    annot: dict = field(default_factory=dict)         # per-function meaning of annotation names (e.g. {'Task': 'Inst', 'int': 'Inst'})
+    reveal: tuple = ()                        # recursive spec functions whose definitions this function's proof may unfold
+    assume_unreachable: tuple = ()            # source texts of `if` tests assumed False (each listed as an assumption)
     cand_locals: tuple = ()                   # locals that candidates may mention besides __done__/__ret__
     ghost_yield: dict = field(default_factory=dict)
     rely_ensures: list = field(default_factory=list)
@@ -119,6 +126,8 @@ class Registry:
         self.identity_sorts: tuple = ('Inst',)
         self.file_sorts: tuple = ()
         self.global_objects: dict = {}            # module-level singleton objects: name -> class name
+        self.datatypes: list = []                 # [(name, [(ctor, [(field, type)])])] mutually recursive group(s)
+        self.recfuncs: dict = {}                  # name -> dict(params={n: type}, res=type, body=expr)
         self.const_exprs: dict = {}               # dotted module constants (os.path.sep) -> spec expression
         self.view_names: set = set()
         self.const_names: dict = {}               # module-level names used as opaque values: name -> sort
@@ -129,6 +138,12 @@ class Registry:
 
     def func(self, name, args, res):
         self.funcs[name] = (list(args), res)
+
+    def datatype_group(self, group):
+        self.datatypes.append(group)
+
+    def recfunc(self, name, params, res, body):
+        self.recfuncs[name] = dict(params=dict(params), res=res, body=body)
 
     def deffunc(self, name, params, res, body, lemmas=()):
         """A *defined* spec function: inlined in finite scope; in unbounded mode an uninterpreted symbol with its
